@@ -74,6 +74,8 @@ type evSpec struct {
 	CurEpoch                   uint32
 	Validators                 []uint32
 	WarmUp                     bool // the checkers validated another event under another node state before
+	ParentsBeforeSeq           bool // the event's parents are assigned before its sequence number (an emitter picks parents first)
+	NextEpochPrepared          bool // before the check somebody derived the next epoch's set from the current one (Builder(), Set, Build)
 }
 
 // ---------------------------------------------------------------------------------------------
@@ -454,12 +456,22 @@ func build(e evSpec, weights []uint32) (dag.Event, dag.Events, *eventcheck.Check
 	}
 	ev := &tdag.TestEvent{}
 	ev.SetEpoch(idx.Epoch(e.Epoch))
-	ev.SetSeq(idx.Event(e.Seq))
-	ev.SetFrame(idx.Frame(e.Frame))
-	ev.SetCreator(idx.ValidatorID(e.Creator))
-	ev.SetLamport(idx.Lamport(e.Lamport))
-	if ids != nil {
-		ev.SetParents(ids)
+	if e.ParentsBeforeSeq {
+		if ids != nil {
+			ev.SetParents(ids)
+		}
+		ev.SetLamport(idx.Lamport(e.Lamport))
+		ev.SetCreator(idx.ValidatorID(e.Creator))
+		ev.SetFrame(idx.Frame(e.Frame))
+		ev.SetSeq(idx.Event(e.Seq))
+	} else {
+		ev.SetSeq(idx.Event(e.Seq))
+		ev.SetFrame(idx.Frame(e.Frame))
+		ev.SetCreator(idx.ValidatorID(e.Creator))
+		ev.SetLamport(idx.Lamport(e.Lamport))
+		if ids != nil {
+			ev.SetParents(ids)
+		}
 	}
 	ev.SetID([24]byte{0xee})
 
@@ -492,6 +504,17 @@ func build(e evSpec, weights []uint32) (dag.Event, dag.Events, *eventcheck.Check
 		_ = ch.Validate(w, nil)
 		*rd = cur
 	}
+	if e.NextEpochPrepared {
+		// the usual way to prepare the next epoch's set: a mutable copy of the current one, edited and built. The
+		// current set (still returned by the reader) is read-only and must not notice.
+		nb := rd.v.Builder()
+		nb.Set(idx.ValidatorID(e.Creator), 0)
+		if len(e.Validators) > 0 {
+			nb.Set(idx.ValidatorID(e.Validators[0]), 0)
+		}
+		nb.Set(idx.ValidatorID(e.Creator)+7, 3)
+		_ = nb.Build()
+	}
 	return ev, parents, ch
 }
 
@@ -501,6 +524,8 @@ func build(e evSpec, weights []uint32) (dag.Event, dag.Events, *eventcheck.Check
 func propC13(t *rapid.T) {
 	e := genCase(t)
 	e.WarmUp = rapid.Bool().Draw(t, "longLivedCheckers")
+	e.ParentsBeforeSeq = rapid.Bool().Draw(t, "parentsAssignedBeforeSeq")
+	e.NextEpochPrepared = rapid.IntRange(0, 2).Draw(t, "nextEpochPrepared") == 0
 	weights := make([]uint32, len(e.Validators))
 	for i := range weights {
 		weights[i] = rapid.Uint32Range(1, 5).Draw(t, fmt.Sprintf("w%d", i))
